@@ -100,8 +100,17 @@ def random_history(rng, hv, n_steps=None, allow=("range", "fdwra", "time", "manu
             r = rand_range(rng, hv.frequency)
             if rng.random() < 0.3:
                 r = list(r)
-            hv.update_peaks_bounded(search_range_in_hz=r)
-            steps.append(["range", list(r)])
+            if rng.random() < 0.12:
+                # the caller narrows what counts as a peak (scipy.signal.find_peaks options): windows whose curve never
+                # reaches the height / prominence are left WITHOUT a peak - accepted windows outside the resonance statistics
+                top = float(np.nanmax([np.max(np.asarray(h.amplitude)) for h in hvsrs]))
+                fk = ({"height": float(rng.uniform(0.3, 0.9) * top)} if rng.random() < 0.6
+                      else {"prominence": float(rng.uniform(0.05, 0.5) * top)})
+                hv.update_peaks_bounded(search_range_in_hz=r, find_peaks_kwargs=dict(fk))
+                steps.append(["range", list(r), fk])
+            else:
+                hv.update_peaks_bounded(search_range_in_hz=r)
+                steps.append(["range", list(r)])
         elif op == "fdwra":
             steps.append(step_fdwra(rng, hv))
             if isinstance(steps[-1][2], str) and len(hvsrs) > 1:
